@@ -305,6 +305,9 @@ func check05(c *Case, o *Obs, rec Rec) (vs []viol, inconclusive string) {
 	if c.Target != "" {
 		pc += "@" + c.Target
 	}
+	if c.Opt != "" {
+		pc += "[" + c.Opt + "]"
+	}
 	preCls := "" // metadata call the handler made before failing
 	switch {
 	case sc.Pre == "set" || len(sc.Hdr) > 0 && !sc.SendHdr:
@@ -335,6 +338,13 @@ func check05(c *Case, o *Obs, rec Rec) (vs []viol, inconclusive string) {
 		return vs, "in-process watchdog fired without a stack inside larking"
 	}
 	if stop {
+		return vs, ""
+	}
+	if c.Hold && o.Timeout && rec.Done && o.Stuck != "" {
+		// generous watchdog + goroutine dump: the handler has returned its
+		// status, the request is still inside the mux, the client (send side
+		// open, waiting for the result) never got the status
+		add("status-not-delivered", "client-send-side-open", fmt.Sprintf("handler returned code %d after %d replies; the client, which keeps its send side open until it has the result, received no status within %v; the request is still inside larking: %s", sc.Code, rec.Sent, holdTimeout, ascii(clip(firstLines(o.Stuck, 12), 700))))
 		return vs, ""
 	}
 	if o.Timeout {
@@ -541,6 +551,14 @@ func check05(c *Case, o *Obs, rec Rec) (vs []viol, inconclusive string) {
 	return vs, ""
 }
 
+func firstLines(s string, n int) string {
+	l := strings.SplitN(s, "\n", n+1)
+	if len(l) > n {
+		l = l[:n]
+	}
+	return strings.Join(l, " | ")
+}
+
 // answered reports that the client received a definite protocol-level answer.
 func answered(o *Obs) bool {
 	return o.Err == "" && !o.Timeout && (o.WSClose || o.HasStatus || o.HTTP >= 400)
@@ -644,7 +662,7 @@ func runC05Job(env *Env, j c05Job) c05Outcome {
 		case c.Script.Code > 0:
 			cc = "code-in-range"
 		}
-		out.distinct = fmt.Sprintf("%s%s/%s/%s/after=%d/%s/%s/details=%v/%s", c.Target+":", protoFamily(c.Proto), c.Codec, c.Method, c.Script.Replies, cc, msgShape(c.Script.Msg)+sizeClass(c.Script.Msg), c.Script.Details, c.Kind+"/pre="+c.Script.Pre+"/hdr="+fmt.Sprint(len(c.Script.Hdr) > 0, c.Script.SendHdr, len(c.Script.Trl) > 0))
+		out.distinct = fmt.Sprintf("%s%s/%s/%s/after=%d/%s/%s/details=%v/%s", c.Target+":", protoFamily(c.Proto), c.Codec, c.Method, c.Script.Replies, cc, msgShape(c.Script.Msg)+sizeClass(c.Script.Msg), c.Script.Details, c.Kind+"/pre="+c.Script.Pre+"/hdr="+fmt.Sprint(len(c.Script.Hdr) > 0, c.Script.SendHdr, len(c.Script.Trl) > 0)+"/opt="+c.Opt+fmt.Sprintf("/hold=%v", c.Hold))
 	}
 	if c.Script.Code == 5 && j.label == "pct-middle" && c.Script.Details && c.Script.Replies <= 1 {
 		out.sample = map[string]any{"proto": c.Proto, "target": c.Target, "codec": c.Codec, "method": c.Method, "code": c.Script.Code, "msg": c.Script.Msg, "replies_before_status": c.Script.Replies,
@@ -726,7 +744,7 @@ func (g *c05Runner) flush() {
 
 // RunC05 is the status / error fidelity check.
 func RunC05(r *mon.Run) {
-	r.Rule = "a scripted handler behind a real Mux returns status (code, message, optional 2 details) before any reply or after 1 / 3 replies; one client per protocol observes the outcome: HTTP JSON/protobuf and Twirp (in-process and HTTP/1 socket), grpc-go over h2c, raw gRPC frames in-process and over h2c, gRPC-web binary/text (in-process and HTTP/1 socket), WebSocket (socket). Cases = (all 22 codes x 3 base messages) + (2-3 codes x every message of the message set: empty, ASCII, single bytes embedded in text, '%' at start/middle/end, multi-byte tails, 1 KiB, 70 KiB, 123/124-byte close-frame boundary, seeded random mixes of ASCII / '%' / control / multi-byte pieces), each with and without details, on every protocol x codec x method x reply-count variant, plus a class where the handler calls SetHeader / SendHeader / SetTrailer with custom metadata at entry or right before it returns the status, plus a small class where the call's deadline has expired before the handler returns. Every class runs against the handler registered on the mux and (quick: reduced matrix) against the same handler on a real grpc.Server back-end that a second mux proxies through RegisterConn (codes up to 2^31-1). An execution is non-trivial when the scripted handler ran; distinct = (target, protocol, codec, method, replies before status, code class, message shape, details?)"
+	r.Rule = "a scripted handler behind a real Mux returns status (code, message, optional 2 details) before any reply or after 1 / 3 replies; one client per protocol observes the outcome: HTTP JSON/protobuf and Twirp (in-process and HTTP/1 socket), grpc-go over h2c, raw gRPC frames in-process and over h2c, gRPC-web binary/text (in-process and HTTP/1 socket), WebSocket (socket). Cases = (all 22 codes x 3 base messages) + (2-3 codes x every message of the message set: empty, ASCII, single bytes embedded in text, '%' at start/middle/end, multi-byte tails, 1 KiB, 70 KiB, 123/124-byte close-frame boundary, seeded random mixes of ASCII / '%' / control / multi-byte pieces), each with and without details, on every protocol x codec x method x reply-count variant, plus a class where the handler calls SetHeader / SendHeader / SetTrailer with custom metadata at entry or right before it returns the status, plus muxes built with small MaxSendMessageSize / MaxReceiveMessageSize options (64, 256 bytes) x long messages / details, plus client- and bidi-streaming gRPC clients (grpc-go, raw h2c) that keep their send side open until the status arrives (10 s watchdog + goroutine dump), plus a small class where the call's deadline has expired before the handler returns. Every class runs against the handler registered on the mux and (quick: reduced matrix) against the same handler on a real grpc.Server back-end that a second mux proxies through RegisterConn (codes up to 2^31-1). An execution is non-trivial when the scripted handler ran; distinct = (target, protocol, codec, method, replies before status, code class, message shape, details?)"
 	r.Floor = 150
 	env, err := newEnv()
 	if err != nil {
@@ -854,6 +872,54 @@ func RunC05(r *mon.Run) {
 						}
 						g.exec(c, c.Class)
 					}
+				}
+			}
+		}
+	}
+
+	// mux options: small send / receive limits must not affect how a status
+	// (long message, details) reaches the client
+	long200 := msgIn{repeatTo("a status message of two hundred bytes; ", 200), "200B"}
+	for _, opt := range []string{"send64", "send256", "recv64"} {
+		for _, target := range []string{"", "proxy"} {
+			for _, v := range c05Variants(r.Thorough()) {
+				if target == "proxy" && sockTwin(v.proto) {
+					continue
+				}
+				for _, code := range []uint32{0, 5, 16} {
+					for _, m := range []msgIn{{"50% done", "pct-middle"}, long200, {repeatTo("1 KiB ü% ", 1023) + "!", "1KiB-escaped"}} {
+						for _, det := range []bool{false, true} {
+							if code == 0 && (det || m.label != "pct-middle") {
+								continue
+							}
+							c := &Case{Kind: "C05", Proto: v.proto, Codec: v.codec, Method: v.method, Class: "opt-" + opt + "/" + m.label, Target: target, Opt: opt,
+								Script: Script{Code: code, Msg: m.s, Details: det, Replies: v.replies}}
+							if code == 0 && v.method != "Echo" && v.replies == 0 {
+								c.Script.Replies = 2
+							}
+							g.exec(c, c.Class)
+						}
+					}
+				}
+			}
+		}
+	}
+
+	// full-duplex clients: the client-/bidi-streaming client keeps its send
+	// side open (no half-close) until it has received the status
+	for _, target := range []string{"", "proxy"} {
+		for _, pv := range []struct{ proto, codec string }{{"grpc", "proto"}, {"grpc", "json"}, {"grpc-h2c", "proto"}} {
+			for _, mv := range []struct {
+				method  string
+				replies int
+			}{{"Bidi", 0}, {"Bidi", 1}, {"Bidi", 3}, {"CS", 0}} {
+				for _, code := range []uint32{0, 1, 5, 13} {
+					c := &Case{Kind: "C05", Proto: pv.proto, Codec: pv.codec, Method: mv.method, Class: "client-send-side-open", Target: target, Hold: true,
+						Script: Script{Code: code, Msg: "50% done", Details: code == 5, Replies: mv.replies}}
+					if code == 0 && mv.method == "CS" {
+						c.Script.Replies = 1
+					}
+					g.exec(c, c.Class)
 				}
 			}
 		}
